@@ -1,37 +1,45 @@
 #!/bin/bash
-# regress.sh [name-prefix] — run the quick checks against every kept change in seeded/
+# regress.sh [name-prefix ...] — run the quick checks against every kept change in seeded/
 # (bug seeds must be caught by a check named in meta.json "expect_caught_by"; refactors must
-# raise no alarm). Applies each patch to /repo (3-way if needed), runs, and undoes it.
+# raise no alarm). Works on a private snapshot: a copy of /verif and a scratch git worktree of
+# /repo at HEAD (both under a mktemp directory, removed at the end), so neither /repo, nor
+# /verif/evidence, nor a concurrently edited harness is touched.
 set -u
-cd /verif
-pat="${1:-}"
+export GOFLAGS=-mod=mod GOPROXY=off GOSUMDB=off GOTOOLCHAIN=local
+SNAP="$(mktemp -d /tmp/regress.XXXXXX)"
+cleanup() { git -C /repo worktree remove --force "$SNAP/repo" 2>/dev/null; rm -rf "$SNAP"; git -C /repo worktree prune; }
+trap cleanup EXIT
+rsync -a --exclude .git --exclude replays /verif/ "$SNAP/verif/"
+git -C /repo worktree add -q --detach "$SNAP/repo" HEAD || exit 2
+R="$SNAP/repo"; V="$SNAP/verif"
+(cd "$V" && ./check setup) || exit 2
 fail=0
-for d in seeded/${pat}*/; do
+pats=("$@"); [ ${#pats[@]} -eq 0 ] && pats=("")
+for pat in "${pats[@]}"; do
+for d in "$V"/seeded/${pat}*/; do
   n=$(basename "$d")
   [ -f "$d/patch.diff" ] || continue
-  exp=$(python3 -c "import json,sys; m=json.load(open('$d/meta.json')); print(' '.join(m.get('expect_caught_by',[])))" 2>/dev/null)
+  exp=$(python3 -c "import json; m=json.load(open('$d/meta.json')); print(' '.join(m.get('expect_caught_by',[])))" 2>/dev/null)
   kind=$(python3 -c "import json; print(json.load(open('$d/meta.json')).get('kind','bug'))" 2>/dev/null)
-  if ! git -C /repo diff --quiet; then echo "repo dirty"; exit 2; fi
-  if ! git -C /repo apply "$PWD/$d/patch.diff" 2>/dev/null; then
-    if ! git -C /repo apply -3 "$PWD/$d/patch.diff" >/dev/null 2>&1; then echo "$n: PATCH-DOES-NOT-APPLY (the tree has moved on since the change was made)"; git -C /repo reset -q --hard HEAD; continue; fi
-    git -C /repo reset -q
+  git -C "$R" reset -q --hard HEAD; git -C "$R" clean -fdq
+  if ! git -C "$R" apply "$d/patch.diff" 2>/dev/null; then
+    if ! git -C "$R" apply -3 "$d/patch.diff" >/dev/null 2>&1; then echo "$n: PATCH-DOES-NOT-APPLY (the tree has moved on since the change was made)"; continue; fi
   fi
-  if ! (cd /repo && go build ./... 2>/dev/null); then echo "$n: BUILD-FAILS"; git -C /repo checkout -q -- .; git -C /repo clean -fdq; continue; fi
+  if ! (cd "$R" && go build ./... 2>/dev/null); then echo "$n: BUILD-FAILS"; continue; fi
   if [ "$kind" = "refactor" ]; then ids="C06 C12 C13 C17 C19 C20"; else ids="$exp"; fi
-  res=""
-  caught=0
+  res=""; caught=0
   for id in $ids; do
-    out=$(./check $id quick 2>&1); rc=$?
+    VERIF_REPO="$R" "$V/check" $id quick >"$SNAP/out.$id" 2>&1; rc=$?
     res="$res $id=$rc"
     [ $rc -eq 1 ] && caught=1
     [ $rc -eq 2 ] && res="$res(!)"
   done
-  git -C /repo checkout -q -- . ; git -C /repo clean -fdq
   if [ "$kind" = "refactor" ]; then
     if echo "$res" | grep -q "=[12]"; then echo "$n: FALSE-ALARM$res"; fail=1; else echo "$n: quiet$res"; fi
   elif [ -z "$exp" ]; then echo "$n: (not expected to be caught)"
   else
     if [ $caught -eq 1 ]; then echo "$n: caught$res"; else echo "$n: MISSED$res"; fail=1; fi
   fi
+done
 done
 exit $fail
